@@ -195,6 +195,7 @@ pub fn run_c13(ctx: &mut Ctx) {
             run_ops_both(ctx, "C13", pshape, win, recv, &ops, &default_keys, false, wc * wr <= 400, 12);
         }
     }
+    crate::wl_access::giant_misc(ctx, "C13");
 }
 
 // ================================================================================================
